@@ -74,7 +74,7 @@ theorem handleNormal_benign (cfg : Cfg) (o : Option Nat) (cl : Client) (m : Msg)
 
 /-- **one message**: a benign message of a permitted client is consumed exactly, produces exactly
 its expected callbacks, and leaves the client permitted -/
-theorem step_benign (orc : AuthOracle) (s : Server) (i : Nat) (cl : Client) (hp : Permitted s i cl)
+theorem step_benign (orc : Oracles) (s : Server) (i : Nat) (cl : Client) (hp : Permitted s i cl)
     (m : Msg) (hb : Benign s.cfg m) (rest : List UInt8) :
     ∃ s' cl', stepFlat orc s i (encode m ++ rest) = (s', expected1 s.cfg i cl.scaled m, rest) ∧
       Permitted s' i cl' ∧ cl'.scaled = nextScale s.cfg cl.scaled m ∧ s'.cfg = s.cfg := by
@@ -86,8 +86,8 @@ theorem step_benign (orc : AuthOracle) (s : Server) (i : Nat) (cl : Client) (hp 
     hp.nodefer hp.nopending hp.normal hp.isOpen
   have hid' := handleNormal_id s.cfg s.owner cl m
   rw [stepFlat_some orc s i cl _ m rest hp.found hparse]
-  have hhandle : handle orc s.cfg s.owner cl m = handleNormal s.cfg s.owner cl m := by
-    simp [handle, hp.normal]
+  have hhandle : handle orc s.cfg s.owner cl m = handleNormal s.cfg s.owner cl m :=
+    handle_normal orc s.cfg s.owner cl m hp.normal (by intro p h; subst h; simp [Benign] at hb)
   rw [hhandle]
   obtain ⟨h1, h2, h3, h4, h5, h6, h7⟩ := hh
   refine ⟨s.putOwner (handleNormal s.cfg s.owner cl m).1 (handleNormal s.cfg s.owner cl m).2.1,
